@@ -29,6 +29,7 @@ func init() {
 		},
 		Strata: []fw.Stratum{
 			{Name: "h264-loss-subsets", N: fw.Const(10000, 300000), Run: c15H264},
+			{Name: "large-pending-fragments", N: fw.Const(6, 60), Run: c15Large},
 			{Name: "av1-loss-subsets", N: fw.Const(10000, 300000), Run: c15AV1},
 		},
 	})
@@ -349,4 +350,95 @@ func c15AV1(c *fw.Ctx, i int) {
 		c.Sample(map[string]any{"codec": "av1", "earlier_frame_packets": len(frame1), "later_frame_packets": len(frame2)})
 	}
 	c15Run(c, "av1", func() depack { return &codecs.AV1Depacketizer{} }, frame1, frame1b, frame2, garbage, c15UnfinishedAV1, "z0")
+}
+
+// c15Large: the abandoned unit has megabytes of delivered fragments (size-dependent guards and buffer handling must
+// not change what happens at the next start fragment).
+func c15Large(c *fw.Ctx, i int) {
+	r := c.R
+	frag := r.Pick(1<<16, 1<<20, 3<<19, 1<<21)
+	nfr := r.Pick(3, 5, 9)
+	if i%2 == 0 {
+		avc := r.Bool()
+		var frame1 [][]byte
+		for q := 0; q < nfr; q++ {
+			h := byte(5)
+			if q == 0 {
+				h |= 0x80
+			}
+			if q == nfr-1 {
+				h |= 0x40
+			}
+			frame1 = append(frame1, append([]byte{0x60 | 28, h}, r.Bytes(frag)...))
+		}
+		frame2 := c15H264Train(r, 10)
+		name := "h264-annexb"
+		if avc {
+			name = "h264-avc"
+		}
+		fresh, _, _ := c15Feed(&codecs.H264Packet{IsAVC: avc}, frame2)
+		for _, deliver := range [][2]int{{0, nfr - 1}, {0, 1}, {1, nfr - 1}, {0, nfr}} {
+			d := &codecs.H264Packet{IsAVC: avc}
+			if _, pv, st := c15Feed(d, frame1[deliver[0]:deliver[1]]); pv != nil {
+				c.Fail("C15/"+name+"/panic-in-history/"+fw.PanicFunc(st), fmt.Sprintf("panicked on large fragments: %v", pv), fw.W("fragment_bytes", frag, "fragments", nfr, "stack", st))
+				return
+			}
+			got, pv, st := c15Feed(d, frame2)
+			c.Evals(nfr + len(frame2))
+			if pv != nil {
+				c.Fail("C15/"+name+"/panic-after-loss/"+fw.PanicFunc(st), fmt.Sprintf("panicked on the intact frame: %v", pv), fw.W("stack", st))
+				return
+			}
+			if k := c15Same(fresh, got); k >= 0 {
+				c.Fail("C15/"+name+"/later-frame-decodes-differently/after-large-unfinished-fragment", fmt.Sprintf("packet %d of the intact frame decodes differently after an abandoned unit of %d fragments x %d bytes (delivered %d..%d)", k, nfr, frag, deliver[0], deliver[1]),
+					fw.W("fragment_bytes", frag, "fragments", nfr, "delivered_from", deliver[0], "delivered_to", deliver[1], "intact_frame", fw.HexList(truncList(frame2, 64)), "fresh_ok", fresh[k].ok, "after_history_ok", got[k].ok,
+						"fresh_output_len", len(fresh[k].out), "output_after_history_len", len(got[k].out)))
+				return
+			}
+		}
+		c.Shapef("large|%s|frag%d|n%d", name, frag>>16, nfr)
+		c.Sample(map[string]any{"codec": name, "abandoned_unit_fragments": nfr, "fragment_bytes": frag})
+		return
+	}
+	// AV1: one OBU spread over nfr packets of `frag` bytes each
+	var frame1 [][]byte
+	for q := 0; q < nfr; q++ {
+		b := byte(0x10) // W=1
+		if q > 0 {
+			b |= 0x80
+		}
+		if q < nfr-1 {
+			b |= 0x40
+		}
+		pl := append([]byte{b}, r.Bytes(frag)...)
+		if q == 0 {
+			pl[1] = 6 << 3
+		}
+		frame1 = append(frame1, pl)
+	}
+	frame2, ok := c15AV1Train(r, 10)
+	if !ok {
+		return
+	}
+	fresh, _, _ := c15Feed(&codecs.AV1Depacketizer{}, frame2)
+	for _, deliver := range [][2]int{{0, nfr - 1}, {0, 1}, {1, nfr - 1}, {0, nfr}} {
+		d := &codecs.AV1Depacketizer{}
+		if _, pv, st := c15Feed(d, frame1[deliver[0]:deliver[1]]); pv != nil {
+			c.Fail("C15/av1/panic-in-history/"+fw.PanicFunc(st), fmt.Sprintf("panicked on large fragments: %v", pv), fw.W("fragment_bytes", frag, "fragments", nfr, "stack", st))
+			return
+		}
+		got, pv, st := c15Feed(d, frame2)
+		c.Evals(nfr + len(frame2))
+		if pv != nil {
+			c.Fail("C15/av1/panic-after-loss/"+fw.PanicFunc(st), fmt.Sprintf("panicked on the intact frame: %v", pv), fw.W("stack", st))
+			return
+		}
+		if k := c15Same(fresh, got); k >= 0 {
+			c.Fail("C15/av1/later-frame-decodes-differently/after-large-unfinished-fragment", fmt.Sprintf("packet %d of the intact frame decodes differently after an abandoned OBU of %d fragments x %d bytes", k, nfr, frag),
+				fw.W("fragment_bytes", frag, "fragments", nfr, "delivered_from", deliver[0], "delivered_to", deliver[1]))
+			return
+		}
+	}
+	c.Shapef("large|av1|frag%d|n%d", frag>>16, nfr)
+	c.Sample(map[string]any{"codec": "av1", "abandoned_obu_fragments": nfr, "fragment_bytes": frag})
 }
